@@ -143,6 +143,8 @@ static inline char sv_at(sv_t v, size_t i) {
   __CPROVER_assert(i < v.n, "std::string_view::operator[] index < size()");
   return v.p[i];
 }
+/* std::count(v.begin(), v.end(), c) */
+static inline long sv_count__c(sv_t v, char c) { long k = 0; for (size_t i = 0; i < v.n; i++) if (v.p[i] == c) k++; return k; }
 /* std::string_view::find_first_not_of(char) */
 static inline size_t sv_find_first_not_of__c(sv_t v, char c) {
   for (size_t i = 0; i < v.n; i++) if (v.p[i] != c) return i;
